@@ -184,5 +184,345 @@ theorem inclFinish_RK {k : Nat} (s : St) (r : Res) (hr : RK (k+1) r) :
       · exact (write_keeps ({ s with c := { r.st.c with incD := r.st.c.incD - 1 } } : St) r.st.w.out).trans hd
   · exact RK.of (write_ROK _ _ hr.2.1) (write_keeps _ _) ⟨hr.2.1, hd⟩
 
+/-! ### Trees with includes -/
+
+mutual
+/-- No counter loop anywhere in the node (includes allowed). -/
+def lfNode : Node → Bool
+  | .cond _ ch => lfSeq ch
+  | .condOK _ ch => lfSeq ch
+  | .condTrue ch => lfSeq ch
+  | .condFalse ch => lfSeq ch
+  | .case_ _ ch => lfSeq ch
+  | .default_ ch => lfSeq ch
+  | .rloop _ ch => lfSeq ch
+  | .cloop _ _ => false
+  | .switch _ ch => lfSeq ch
+  | _ => true
+def lfSeq : List Node → Bool
+  | [] => true
+  | n :: rest => lfNode n && lfSeq rest
+end
+
+theorem lf_mem : ∀ (l : List Node) (n : Node), n ∈ l → lfSeq l = true → lfNode n = true := by
+  intro l
+  induction l with
+  | nil => intro n h; cases h
+  | cons a rest ih =>
+    intro n h hp
+    rw [lfSeq, Bool.and_eq_true] at hp
+    cases h with
+    | head => exact hp.1
+    | tail _ h' => exact ih n h' hp.2
+
+theorem loopParts_body_lf (child : List Node) (h : lfSeq child = true) : lfSeq (loopParts child).1 = true := by
+  unfold loopParts
+  split
+  · rename_i b rest
+    simp only [lfSeq, lfNode, Bool.and_eq_true] at h
+    exact h.1
+  · exact h
+
+theorem loopParts_else_lf (child e : List Node) (h : (loopParts child).2 = some e) (hp : lfSeq child = true) :
+    lfSeq e = true := by
+  simp only [loopParts] at h
+  split at h
+  · rename_i a e' rest
+    simp only [Option.some.injEq] at h
+    subst h
+    simp only [lfSeq, lfNode, Bool.and_eq_true] at hp
+    exact hp.2.1
+  · cases h
+
+/-- Every template an include tag can reach is free of counter loops and needs less than `R`. -/
+def RegOK (reg : Registry) (R : Nat) : Prop :=
+  ∀ names nodes, reg.getBKeys names = some nodes → lfSeq nodes = true ∧ needSeq nodes + 1 ≤ R
+
+/-- The else-branch runner of a loop node at depth `k`. -/
+theorem else_K (reg : Registry) (f B k : Nat) (child : List Node) (hp : lfSeq child = true)
+    (ihN : ∀ n s, lfNode n = true → needNode n + B ≤ f → SK k s → RK k (writeNode reg f n s))
+    (hf : needSeq child + B ≤ f) :
+    ElseK k ((loopParts child).2.map (fun e st => elseRun (elseSeq (e.map (fun n st' => writeNode reg f n st'))) (!e.isEmpty) st)) := by
+  intro g hg
+  cases he : (loopParts child).2 with
+  | none => rw [he] at hg; cases hg
+  | some e =>
+    rw [he] at hg
+    simp only [Option.map_some, Option.some.injEq] at hg
+    subst hg
+    have hne := loopParts_else_need child e he
+    have hpe := loopParts_else_lf child e he hp
+    intro st hst
+    apply elseRun_RK _ _ _ _ hst
+    intro st' hst'
+    apply elseSeq_RK _ _ _ hst'
+    intro r hr st'' hst''
+    obtain ⟨n, hn, rfl⟩ := List.mem_map.mp hr
+    have h1 := need_mem e n hn
+    exact ihN n st'' (lf_mem e n hn hpe) (by omega) hst''
+
+/-- **Termination with includes.** `d` include levels are still allowed at depth `k` (`maxIncDepth ≤ k + d`); a fuel of
+    the need of the tree plus `d · R` suffices. -/
+theorem interp_incl (reg : Registry) (R : Nat) (hreg : RegOK reg R) : ∀ f : Nat,
+    (∀ d k nodes s, lfSeq nodes = true → maxIncDepth ≤ k + d → needSeq nodes + 1 + d * R ≤ f → SK k s →
+        RK k (writeTree reg f nodes s)) ∧
+    (∀ d k nodes s, lfSeq nodes = true → maxIncDepth ≤ k + d → needSeq nodes + d * R ≤ f → SK k s →
+        RK k (writeSeq reg f nodes s)) ∧
+    (∀ d k n s, lfNode n = true → maxIncDepth ≤ k + d → needNode n + d * R ≤ f → SK k s →
+        RK k (writeNode reg f n s)) ∧
+    (∀ d k arg all cs s, lfSeq all = true → lfSeq cs = true → maxIncDepth ≤ k + d →
+        needSeq cs + needSeq all + d * R ≤ f → SK k s → RK k (switchNode reg f arg all cs s)) := by
+  intro f
+  induction f with
+  | zero =>
+    refine ⟨?_, ?_, ?_, ?_⟩
+    · intro d k nodes s _ _ h _; omega
+    · intro d k nodes s _ _ h _; have := needSeq_pos nodes; omega
+    · intro d k n s _ _ h _; have := needNode_pos n; omega
+    · intro d k arg all cs s _ _ _ h _; have := needSeq_pos cs; omega
+  | succ f ih =>
+    obtain ⟨ihT, ihS, ihN, ihW⟩ := ih
+    refine ⟨?_, ?_, ?_, ?_⟩
+    · -- writeTree
+      intro d k nodes s hp hd hf hs
+      rw [writeTree]
+      have h := ihS d k nodes s hp hd (by omega) hs
+      simp only
+      split
+      · exact ⟨by simp, by simp, h.2.2⟩
+      · exact h
+    · -- writeSeq
+      intro d k nodes s hp hd hf hs
+      cases nodes with
+      | nil => rw [writeSeq]; exact ok_RK _ hs
+      | cons n rest =>
+        rw [writeSeq]
+        rw [needSeq] at hf
+        rw [lfSeq, Bool.and_eq_true] at hp
+        apply andThen_RK
+        · exact ihN d k n s hp.1 hd (by omega) hs
+        · intro s1 hs1; exact ihS d k rest s1 hp.2 hd (by omega) hs1
+    · -- writeNode
+      intro d k n s hp hd hf hs
+      generalize hB : d * R = B at hf
+      cases n with
+      | raw b => rw [writeNode]; exact write_RK _ _ hs
+      | tpl path mods noesc pre suf =>
+        rw [writeNode]
+        simp only
+        have he := evalPrint_clean s.c path mods
+        have hi := evalPrint_incD s.c path mods
+        generalize evalPrint s.c path mods = ev at he hi
+        obtain ⟨c2, o⟩ := ev
+        cases o with
+        | stop e => exact ⟨he.2 e rfl, he.1, hi.trans hs.2⟩
+        | text t => exact tplWrites_RK _ _ _ _ _ ⟨he.1, hi.trans hs.2⟩
+      | ctx cs =>
+        rw [writeNode]
+        simp only
+        have he := ctxNode_clean s.c cs hs.1
+        have hi := ctxNode_incD s.c cs
+        generalize ctxNode s.c cs = ev at he hi
+        obtain ⟨c', e⟩ := ev
+        exact ⟨he.2, he.1, hi.trans hs.2⟩
+      | counter cs =>
+        rw [writeNode]
+        simp only
+        have he := counterNode_clean s.c cs hs.1
+        have hi := counterNode_incD s.c cs
+        generalize counterNode s.c cs = ev at he hi
+        obtain ⟨c', e⟩ := ev
+        exact ⟨he.2, he.1, hi.trans hs.2⟩
+      | condOK kk child =>
+        rw [writeNode]
+        simp only
+        rw [needNode] at hf
+        rw [lfNode] at hp
+        by_cases hemp : kk.cd.hlp.isEmpty = true
+        · simp only [hemp, if_true]; exact ok_RK _ hs
+        · simp only [hemp, Bool.false_eq_true, if_false]
+          have he := evalCondOK_clean s.c kk hs.1
+          have hi := evalCondOK_incD s.c kk
+          generalize evalCondOK s.c kk = ev at he hi
+          obtain ⟨c1, o⟩ := ev
+          have hs1 : SK k ({ s with c := c1 } : St) := ⟨he.1, hi.trans hs.2⟩
+          cases o with
+          | stop e => exact fail_RK _ _ hs1 he.2
+          | branch r pending =>
+            simp only
+            cases hc : (if r then child[0]? else child[1]?) with
+            | none => exact ⟨he.2, hs1.1, hs1.2⟩
+            | some n =>
+              have hn : n ∈ child := by
+                cases r with
+                | true => simp only [if_true] at hc; exact List.mem_of_getElem? hc
+                | false => simp only [Bool.false_eq_true, if_false] at hc; exact List.mem_of_getElem? hc
+              have h1 := need_mem child n hn
+              subst hB
+              exact ihN d k n _ (lf_mem child n hn hp) hd (by omega) hs1
+      | cond cd child =>
+        rw [writeNode]
+        simp only
+        rw [needNode] at hf
+        rw [lfNode] at hp
+        have he := evalCond_clean s.c cd hs.1
+        have hi := evalCond_incD s.c cd
+        generalize evalCond s.c cd = ev at he hi
+        obtain ⟨c1, o⟩ := ev
+        have hs1 : SK k ({ s with c := c1 } : St) := ⟨he.1, hi.trans hs.2⟩
+        cases o with
+        | stop e => exact fail_RK _ _ hs1 he.2
+        | branch r pending =>
+          simp only
+          cases hc : (if r then child[0]? else child[1]?) with
+          | none => exact ⟨he.2, hs1.1, hs1.2⟩
+          | some n =>
+            have hn : n ∈ child := by
+              cases r with
+              | true => simp only [if_true] at hc; exact List.mem_of_getElem? hc
+              | false => simp only [Bool.false_eq_true, if_false] at hc; exact List.mem_of_getElem? hc
+            have h1 := need_mem child n hn
+            subst hB
+            exact ihN d k n _ (lf_mem child n hn hp) hd (by omega) hs1
+      | condTrue child =>
+        rw [writeNode]; rw [needNode] at hf; rw [lfNode] at hp; subst hB
+        exact ihS d k child s hp hd (by omega) hs
+      | condFalse child =>
+        rw [writeNode]; rw [needNode] at hf; rw [lfNode] at hp; subst hB
+        exact ihS d k child s hp hd (by omega) hs
+      | case_ kk child =>
+        rw [writeNode]; rw [needNode] at hf; rw [lfNode] at hp; subst hB
+        exact ihS d k child s hp hd (by omega) hs
+      | default_ child =>
+        rw [writeNode]; rw [needNode] at hf; rw [lfNode] at hp; subst hB
+        exact ihS d k child s hp hd (by omega) hs
+      | cloop ls child => rw [lfNode] at hp; cases hp
+      | rloop ls child =>
+        rw [writeNode]
+        simp only
+        rw [needNode] at hf
+        rw [lfNode] at hp
+        have hb := loopParts_body_need child
+        subst hB
+        apply loopNode_RK _ _ _ hs
+        intro s' hs'
+        apply rloopQB_RK _ _ _ _ _ _ hs'
+        · intro st hst
+          exact ihS d k _ st (loopParts_body_lf child hp) hd (by omega) hst
+        · exact else_K reg f (d * R) k child hp (fun n s hn hf' hs'' => ihN d k n s hn hd hf' hs'') (by omega)
+      | brk dd => rw [writeNode]; exact fail_RK _ _ ⟨hs.1, hs.2⟩ (by simp)
+      | lbrk dd => rw [writeNode]; exact ok_RK _ ⟨hs.1, hs.2⟩
+      | cont => rw [writeNode]; exact fail_RK _ _ hs (by simp)
+      | switch arg child =>
+        rw [writeNode]; rw [needNode] at hf; rw [lfNode] at hp; subst hB
+        exact ihW d k arg child child s hp hp hd (by omega) hs
+      | incl names =>
+        rw [writeNode]
+        simp only
+        cases hg : reg.getBKeys names with
+        | none => exact fail_RK _ _ hs (by simp)
+        | some nodes =>
+          simp only
+          by_cases hdep : s.c.incD ≥ maxIncDepth
+          · simp only [hdep, if_true]; exact fail_RK _ _ hs (by simp)
+          · simp only [hdep, if_false]
+            have hk : s.c.incD = k := hs.2
+            obtain ⟨hlf, hR⟩ := hreg names nodes hg
+            -- at least one more level is allowed
+            cases d with
+            | zero => omega
+            | succ d' =>
+              have hmul : (d' + 1) * R = d' * R + R := Nat.succ_mul d' R
+              have hn1 : needNode (Node.incl names) = 1 := by simp [needNode]
+              rw [hn1] at hf
+              have hs0 : SK (k+1) ({ c := { s.c with incD := s.c.incD + 1 }, w := {} } : St) := ⟨hs.1, by simp [hk]⟩
+              have hr := ihT d' (k+1) nodes _ hlf (by omega) (by omega) hs0
+              exact inclFinish_RK s _ hr
+      | exit => rw [writeNode]; exact fail_RK _ _ hs (by simp)
+      | jsonQ => rw [writeNode]; exact ok_RK _ ⟨hs.1, hs.2⟩
+      | endJsonQ => rw [writeNode]; exact ok_RK _ ⟨hs.1, hs.2⟩
+      | htmlE => rw [writeNode]; exact ok_RK _ ⟨hs.1, hs.2⟩
+      | endHtmlE => rw [writeNode]; exact ok_RK _ ⟨hs.1, hs.2⟩
+      | urlEnc => rw [writeNode]; exact ok_RK _ ⟨hs.1, hs.2⟩
+      | endUrlEnc => rw [writeNode]; exact ok_RK _ ⟨hs.1, hs.2⟩
+      | div => rw [writeNode]; exact fail_RK _ _ hs (by simp)
+      | unknown => rw [writeNode]; exact fail_RK _ _ hs (by simp)
+    · -- switchNode
+      intro d k arg all cs s hpa hpc hd hf hs
+      cases cs with
+      | nil =>
+        rw [switchNode]
+        rw [needSeq] at hf
+        cases hdf : all.find? Node.isDefault with
+        | none => exact ok_RK _ hs
+        | some dn =>
+          have hm : dn ∈ all := List.mem_of_find?_eq_some hdf
+          have h1 := need_mem all dn hm
+          exact ihN d k dn s (lf_mem all dn hm hpa) hd (by omega) hs
+      | cons ch rest =>
+        rw [switchNode]
+        rw [needSeq] at hf
+        rw [lfSeq, Bool.and_eq_true] at hpc
+        have ha := needSeq_pos all
+        cases hk : ch.asCase with
+        | none => exact ihW d k arg all rest s hpa hpc.2 hd (by omega) hs
+        | some kc =>
+          simp only
+          have he := evalCase_clean s.c arg kc hs.1
+          have hi := evalCase_incD s.c arg kc
+          generalize evalCase s.c arg kc = ev at he hi
+          obtain ⟨c1, o⟩ := ev
+          have hs1 : SK k ({ s with c := c1 } : St) := ⟨he.1, hi.trans hs.2⟩
+          cases o with
+          | stop e => exact fail_RK _ _ hs1 he.2
+          | branch r pend =>
+            simp only
+            cases r with
+            | true => simp only [if_true]; exact ihN d k ch _ hpc.1 hd (by omega) hs1
+            | false => simp only [Bool.false_eq_true, if_false]; exact ihW d k arg all rest _ hpa hpc.2 hd (by omega) hs1
+
+/-! ### A registry's bound, computed -/
+
+/-- The largest need of a registered template (plus one for the template level). -/
+def regNeed : Registry → Nat
+  | [] => 0
+  | (_, t) :: rest => max (needSeq t + 1) (regNeed rest)
+
+/-- No registered template contains a counter loop. -/
+def regLF : Registry → Bool
+  | [] => true
+  | (_, t) :: rest => lfSeq t && regLF rest
+
+theorem lookup_bound : ∀ (reg : Registry) (key : Bytes) (t : List Node), reg.lookup key = some t → regLF reg = true →
+    lfSeq t = true ∧ needSeq t + 1 ≤ regNeed reg := by
+  intro reg
+  induction reg with
+  | nil => intro key t h; simp [List.lookup] at h
+  | cons p rest ih =>
+    intro key t h hlf
+    obtain ⟨k', t'⟩ := p
+    rw [regLF, Bool.and_eq_true] at hlf
+    rw [regNeed]
+    rw [List.lookup] at h
+    split at h
+    · simp only [Option.some.injEq] at h; subst h
+      exact ⟨hlf.1, by omega⟩
+    · have := ih key t h hlf.2
+      exact ⟨this.1, by omega⟩
+
+/-- A registry without counter loops satisfies `RegOK` with its computed bound. -/
+theorem regOK_of_lf (reg : Registry) (h : regLF reg = true) : RegOK reg (regNeed reg) := by
+  intro names
+  induction names with
+  | nil => intro nodes hg; simp [Registry.getBKeys] at hg
+  | cons k ks ih =>
+    intro nodes hg
+    rw [Registry.getBKeys] at hg
+    split at hg
+    · rename_i t ht
+      simp only [Option.some.injEq] at hg; subst hg
+      exact lookup_bound reg k _ ht h
+    · exact ih nodes hg
+
 end TermIncl
 end DyntplV
